@@ -173,7 +173,7 @@ Theorem shipped_interest_validates : forall row, In row shipped_signers ->
         ((sig_type_of (io_si (obs_int i)) =? sf_vtype row)%Z && chk (concat cov) sv)%bool = true.
 Proof.
   intros row Hin chk sgn Hchk nm cfg a sg s si est e Hact Hty Htr Hest Hsi Hn Hcfg Hsg Hsgi Hfit Hmk r V.
-  destruct (interest_roundtrip_thm sha256 sha256_len _ nm cfg (Some a) sg si est e Hsi Hn ltac:(discriminate) Hcfg Hsg Hsgi Hfit Hmk)
+  destruct (interest_roundtrip_thm sha256 sha256_len _ nm cfg (Some a) sg si est e Hsi Hn Hcfg Hsg Hsgi Hfit Hmk)
     as (svo & _ & Hs1 & _ & _ & Hr).
   destruct (Hs1 Hest) as (Hsign & sv & -> & _). inversion Hsign as [Hsv].
   destruct (Hr r V) as (i & cov & E & Ho & Hc). exists i, cov, sv.
@@ -229,13 +229,13 @@ Lemma sig_covered_agree_int_thm nm cfg app sg si est e :
   let need := match app with Some _ => true | None => false end in
   let pre := strip_digest nm in
   let nm1 := if need then pre ++ [mkc 2 zeros32] else pre in
-  int_siginfo sg need = Ok (si, est) -> 0 < est -> name_ok pre -> (app = None -> existsb is_digest_comp pre = false) ->
+  int_siginfo sg need = Ok (si, est) -> 0 < est -> name_ok pre ->
   iconfig_ok cfg -> signer_ok sg -> signer_int_ok sg -> int_fits nm1 cfg app si est ->
   make_interest sha256 sign nm cfg app sg = Ok e ->
   forall r, View r (concat (e_wire e)) 0 -> exists i cov, read_interest sha256 r = ROk i cov /\ concat cov = concat (e_cov e).
 Proof.
-  intros need pre nm1 Hsi Hest Hn Hnod Hcfg Hsg Hsgi Hfit Hmk r V.
-  destruct (interest_roundtrip_thm sha256 sha256_len sign nm cfg app sg si est e Hsi Hn Hnod Hcfg Hsg Hsgi Hfit Hmk)
+  intros need pre nm1 Hsi Hest Hn Hcfg Hsg Hsgi Hfit Hmk r V.
+  destruct (interest_roundtrip_thm sha256 sha256_len sign nm cfg app sg si est e Hsi Hn Hcfg Hsg Hsgi Hfit Hmk)
     as (svo & _ & _ & _ & _ & Hr).
   destruct (Hr r V) as (i & cov & E & _ & Hc). eauto.
 Qed.
@@ -251,7 +251,7 @@ Lemma digest_is_last_component_thm nm cfg a sg si est e :
   exists region, params_digest_region (concat (e_wire e)) = Some region /\ e_final e = pre ++ [mkc 2 (sha256 region)].
 Proof.
   intros pre Hsi Hn Hcfg Hsg Hsgi Hfit Hmk.
-  destruct (interest_roundtrip_thm sha256 sha256_len sign nm cfg (Some a) sg si est e Hsi Hn ltac:(discriminate) Hcfg Hsg Hsgi Hfit Hmk)
+  destruct (interest_roundtrip_thm sha256 sha256_len sign nm cfg (Some a) sg si est e Hsi Hn Hcfg Hsg Hsgi Hfit Hmk)
     as (svo & Hs0 & Hs1 & Hfin & HW & Hr).
   exists (enc_elems (int_tail_elems (option_map (@concat N) (Some a)) si svo)). split; [|exact Hfin].
   rewrite HW. unfold IV. cbn [option_map].
